@@ -14,6 +14,9 @@ functions of Builder.lean / Walk.lean / Functions/Edit.lean.  `lake build JsonbM
   D8  `delete_jsonb_by_name` = `Fn.deleteByName`
   D9  `BTreeSet` / `BTreeMap` as sorted lists (lawful derived orders), `object_delete_jsonb`, `object_pick_jsonb` = `Fn.objectFilter`
   D10 `array_insert_jsonb` = `Fn.arrayInsert`
+  D11 `array_distinct_jsonb` = `Fn.arrayDistinct` (a `BTreeSet` of the elements seen)
+  D12 `BTreeMap<K, i32>` against the model's count list (`countAdd`, `countGet`, `countDec`)
+  D13 `array_intersection_jsonb`, `array_except_jsonb` = `Fn.arraySetOp true / false`
 -/
 import JsonbModel.Proofs.TranslatedAgreeD1
 import JsonbModel.Proofs.TranslatedAgreeD2
@@ -25,3 +28,6 @@ import JsonbModel.Proofs.TranslatedAgreeD7
 import JsonbModel.Proofs.TranslatedAgreeD8
 import JsonbModel.Proofs.TranslatedAgreeD9
 import JsonbModel.Proofs.TranslatedAgreeD10
+import JsonbModel.Proofs.TranslatedAgreeD11
+import JsonbModel.Proofs.TranslatedAgreeD12
+import JsonbModel.Proofs.TranslatedAgreeD13
